@@ -33,6 +33,7 @@ import MdIt.Lemmas.MemoSafeLamDoc
 import MdIt.Model.PipelineH
 import MdIt.Lemmas.PipelineHLen
 import MdIt.Lemmas.PipelineHShape
+import MdIt.Lemmas.PipelineHRanges
 import MdIt.Props.C14Doc
 
 namespace MdIt.PipelineH
@@ -1440,5 +1441,311 @@ theorem docH_html_block_ranges (cfg : DocCfgH) (src : List Char) (t : Node)
   carried through the inline tokenizer as a node-level invariant (`Inline.ranges_induction` is about the constants
   `tokLoop` / `skipToken`; to be re-proved over `tokLoopH` as the value and shape invariants were here).
 -/
+
+
+/-! ## C05 with html: every `HtmlInline` node has a proper range inside the source -/
+
+/-- an `HtmlInline` node has a proper range that ends inside the source -/
+def HtmlInlineRanged (L : Nat) (n : Node) : Prop :=
+  Kind.isHtmlInline n.kind = true → ∃ x y, n.range = some (x, y) ∧ x ≤ y ∧ y ≤ L
+
+/-- the same on a node of the inline parser -/
+def HIR (L : Nat) (d : Inline.Node) : Prop :=
+  (InlineH.htmlContent? d.val).isSome = true → ∃ x y, d.range = some (x, y) ∧ x ≤ y ∧ y ≤ L
+
+theorem desc_cons {d c : Inline.Node} {r : List Inline.Node} (h : InlineH.Desc d r) : InlineH.Desc d (c :: r) := by
+  cases h with
+  | top hm => exact .top (List.mem_cons_of_mem _ hm)
+  | under hm hd => exact .under (List.mem_cons_of_mem _ hm) hd
+
+mutual
+theorem ofInline_hir {L : Nat} (n : Inline.Node) (h0 : HIR L n) (h : ∀ d, InlineH.Desc d n.children → HIR L d) :
+    Every (HtmlInlineRanged L) (ofInline n) := by
+  match n with
+  | ⟨v, r, cs⟩ =>
+    unfold ofInline
+    exact .mk _ h0 (ofInlineList_hir cs h)
+theorem ofInlineList_hir {L : Nat} (cs : List Inline.Node) (h : ∀ d, InlineH.Desc d cs → HIR L d) :
+    ∀ c ∈ ofInlineList cs, Every (HtmlInlineRanged L) c := by
+  match cs with
+  | [] => simp [ofInlineList]
+  | c :: r =>
+    intro x hx
+    simp only [ofInlineList, List.mem_cons] at hx
+    rcases hx with rfl | hx
+    · exact ofInline_hir c (h c (.top (by simp))) (fun d hd => h d (.under (List.mem_cons_self ..) hd))
+    · exact ofInlineList_hir r (fun d hd => h d (desc_cons hd)) x hx
+end
+
+mutual
+/-- the splice walk: a claim about every spliced-in paragraph and about every block node is a claim about
+    every node of the result -/
+theorem spliceNodeG_every_of {Q : Node → Prop}
+    {parse : List Char → InlineOps.Srcmap → Except Inline.Panic (List Inline.Node)}
+    (hB : ∀ k r cs, Q ⟨.blk k, r, [], cs⟩) (b : Block.BNode)
+    (h : Placeholders (fun c m => ∀ ns, parse c m = .ok ns → ∀ x ∈ ofInlineList ns, Every Q x) b)
+    (t : Node) (ht : spliceNodeG parse b = .ok t) : Every Q t := by
+  match b with
+  | ⟨k, r, cs⟩ =>
+    simp only [Placeholders] at h
+    simp only [spliceNodeG] at ht
+    split at ht
+    · cases ht
+    · rename_i cs' hcs
+      cases ht
+      exact .mk _ (hB _ _ _) (spliceListG_every_of hB cs h.2 cs' hcs)
+theorem spliceListG_every_of {Q : Node → Prop}
+    {parse : List Char → InlineOps.Srcmap → Except Inline.Panic (List Inline.Node)}
+    (hB : ∀ k r cs, Q ⟨.blk k, r, [], cs⟩) (cs : List Block.BNode)
+    (h : PlaceholdersList (fun c m => ∀ ns, parse c m = .ok ns → ∀ x ∈ ofInlineList ns, Every Q x) cs)
+    (out : List Node) (ht : spliceListG parse cs = .ok out) : ∀ c ∈ out, Every Q c := by
+  match cs with
+  | [] => simp [spliceListG] at ht; subst ht; simp
+  | c :: rest =>
+    simp only [PlaceholdersList] at h
+    match c, h.1 with
+    | ⟨k, r, ccs⟩, hc =>
+      have hnode := h.1
+      simp only [Placeholders] at hc
+      by_cases hk : ∃ content mapping, k = .inlineRoot content mapping
+      · obtain ⟨content, mapping, rfl⟩ := hk
+        simp only [spliceListG] at ht
+        split at ht
+        · cases ht
+        · rename_i ns hns
+          split at ht
+          · cases ht
+          · rename_i rest' hr
+            cases ht
+            intro x hx
+            rcases List.mem_append.mp hx with h1 | h1
+            · exact hc.1 ns hns x h1
+            · exact spliceListG_every_of hB rest h.2 rest' hr x h1
+      · simp only [spliceListG] at ht
+        split at ht
+        · exact absurd ⟨_, _, rfl⟩ hk
+        · split at ht
+          · cases ht
+          · rename_i c' hc'
+            split at ht
+            · cases ht
+            · rename_i rest' hr
+              cases ht
+              intro x hx
+              rcases List.mem_cons.mp hx with rfl | hx
+              · exact spliceNodeG_every_of hB _ hnode _ hc'
+              · exact spliceListG_every_of hB rest h.2 rest' hr x hx
+end
+
+/-- `joinNode_kr_aux` for predicates that hold of every `Text` (not necessarily of every inline node) -/
+theorem joinNode_kq_aux {P : Node → Prop} (hcongr : ∀ a b : Node, a.kind = b.kind → a.range = b.range → P a → P b)
+    (htext : ∀ n : Node, n.isText = true → P n) (k : Nat) : ∀ n : Node, nsize n ≤ k → Every P n →
+    Every P (joinNode n) := by
+  induction k with
+  | zero => intro n hn; rw [nsize_eq] at hn; omega
+  | succ k ih =>
+    intro n hn he
+    rw [joinNode_eq, joinList_eq_map]
+    refine .mk _ (hcongr n _ rfl rfl he.here) ?_
+    intro y hy
+    simp only at hy
+    obtain ⟨x, hx, rfl⟩ := List.mem_map.mp hy
+    obtain ⟨c, hc, hr, _⟩ := fragmentsJoin_mem _ x hx
+    have hec := he.child c hc
+    have hpx : P x := by
+      rcases fragmentsJoin_same _ x hx with ht | hm
+      · exact htext x ht
+      · exact (he.child x hm).here
+    have hsz : nsize x ≤ k := by
+      have h1 : nsize x = nsize c := by rw [nsize_eq, nsize_eq, hr.1]
+      have h2 := nsize_le_of_mem hc
+      rw [nsize_eq] at hn
+      omega
+    exact ih x hsz (hr.every hpx hec)
+
+mutual
+theorem sourceposNode_kq {P : Node → Prop} (hcongr : ∀ a b : Node, a.kind = b.kind → a.range = b.range → P a → P b)
+    {src : List Char} {marks : List SourceMap.Mark}
+    (t t' : Node) (he : Every P t) (h : sourceposNode src marks t = .ok t') : Every P t' := by
+  match t with
+  | ⟨k, r, a, cs⟩ =>
+    simp only [sourceposNode] at h
+    split at h
+    · cases h
+    · split at h
+      · cases h
+      · rename_i cs' hcs
+        cases h
+        exact .mk _ (hcongr ⟨k, r, a, cs⟩ _ rfl rfl he.here) (sourceposList_kq hcongr cs cs' he.child hcs)
+theorem sourceposList_kq {P : Node → Prop} (hcongr : ∀ a b : Node, a.kind = b.kind → a.range = b.range → P a → P b)
+    {src : List Char} {marks : List SourceMap.Mark}
+    (cs cs' : List Node) (he : ∀ c ∈ cs, Every P c) (h : sourceposList src marks cs = .ok cs') :
+    ∀ c ∈ cs', Every P c := by
+  match cs with
+  | [] => simp [sourceposList] at h; subst h; simp
+  | c :: r =>
+    simp only [sourceposList] at h
+    split at h
+    · cases h
+    · rename_i c' hc
+      split at h
+      · cases h
+      · rename_i r' hr
+        cases h
+        intro x hx
+        rcases List.mem_cons.mp hx with rfl | hx
+        · exact sourceposNode_kq hcongr c _ (he c (by simp)) hc
+        · exact sourceposList_kq hcongr r r' (fun y hy => he y (List.mem_cons_of_mem _ hy)) hr x hx
+end
+
+theorem hir_congr (L : Nat) : ∀ a b : Node, a.kind = b.kind → a.range = b.range →
+    HtmlInlineRanged L a → HtmlInlineRanged L b := by
+  intro a b hk hr h
+  unfold HtmlInlineRanged at *
+  rw [← hk, ← hr]; exact h
+
+theorem hir_text (L : Nat) : ∀ n : Node, n.isText = true → HtmlInlineRanged L n := by
+  intro n ht hh
+  cases hk : n.kind with
+  | blk b => rw [hk] at hh; cases hh
+  | inl v =>
+    unfold Node.isText at ht
+    rw [hk] at ht hh
+    cases v <;> simp at ht
+    simp [Kind.isHtmlInline, InlineH.htmlContent?] at hh
+
+/-- one paragraph: with a `MapOK` table that maps the content into the source, within the size bound, and the
+    memo check passed, every `HtmlInline` node the inline run hands to the splice walk is ranged -/
+theorem parseInlineH_hir (icfg : InlineH.CfgH) (L : Nat)
+    (hsz : ∀ mk csw, InlineH.RuleIdH.base (.emph mk csw) ∈ icfg.chain → mk.utf8Size = 1)
+    {c : List Char} {m : InlineOps.Srcmap} (hm : Inline.MapOK c m) (hup : C05I.UpToAll c m L)
+    (hsize : 2 * InlineOps.byteLen c + icfg.maxNesting < 2 ^ 31 - 1)
+    (hs : InlineH.memoSafeH icfg c m = true) (ns : List Inline.Node)
+    (h : InlineH.parseInlineH icfg c m = .ok ns) : ∀ x ∈ ofInlineList ns, Every (HtmlInlineRanged L) x := by
+  obtain ⟨lo, hi, _, hhi, hd⟩ := InlineH.parseInlineH_ranges_window_raw icfg hsz hm hsize hs h
+  have hle : hi ≤ L := hup _ _ (by rw [C05I.linesLen_eq]; exact Inline.trimSrc_le c) hhi
+  refine ofInlineList_hir ns ?_
+  intro d hdd _
+  obtain ⟨a, b, e, _, h2, h3⟩ := hd d hdd
+  exact ⟨a, b, e, h2, by omega⟩
+
+/-- the assembly: from the claim at every placeholder to every node of the parsed tree -/
+theorem docH_html_inline_ranges_of (cfg : DocCfgH) (src : List Char) (t : Node)
+    (hp : ∀ root refs, BlockH.parseBlocksH cfg.blockCfg src = .ok (root, refs) →
+      Placeholders (fun c m => ∀ ns, InlineH.parseInlineH (cfg.inlineCfg refs) c m = .ok ns →
+        ∀ x ∈ ofInlineList ns, Every (HtmlInlineRanged (Lines.byteLen src)) x) root)
+    (h : parseDocH cfg src = .ok t) : Every (HtmlInlineRanged (Lines.byteLen src)) t := by
+  unfold parseDocH at h
+  split at h
+  · cases h
+  · rename_i root refs hb
+    unfold afterBlocksH at h
+    split at h
+    · cases h
+    · rename_i t0 hs
+      have he0 := spliceNodeG_every_of (Q := HtmlInlineRanged (Lines.byteLen src))
+        (fun k r cs hh => by cases hh) root (hp root refs hb) t0 hs
+      have h1 : Every (HtmlInlineRanged (Lines.byteLen src)) (if cfg.hasJoin = true then joinNode t0 else t0) := by
+        split
+        · exact joinNode_kq_aux (hir_congr _) (hir_text _) _ t0 (Nat.le_refl _) he0
+        · exact he0
+      simp only at h
+      split at h
+      · exact sourceposNode_kq (hir_congr _) _ _ h1 h
+      · cases h
+        exact h1
+
+/-- the per-placeholder facts the block pass provides for a tab-free source: `MapOK`, `UpToAll` into the
+    source, the inline size bound -/
+theorem docH_placeholder_facts (cfg : DocCfgH) (src : List Char)
+    (hpara : BlockH.hasParaH cfg.blockChain = true) (hmn : cfg.maxNesting ≤ 1073741824)
+    (hsmall : 4 * Lines.byteLen src + 8 < 2147483648) (htab : '\t' ∉ src)
+    {root : Block.BNode} {refs : Refs.RefMap} (hb : BlockH.parseBlocksH cfg.blockCfg src = .ok (root, refs)) :
+    Block.AllInl (fun c m => Inline.MapOK c m ∧ C05I.UpToAll c m (Lines.byteLen src) ∧
+      2 * InlineOps.byteLen c + cfg.maxNesting < 2 ^ 31 - 1) root := by
+  have h1 := docH_tables_mapOK cfg src hsmall hpara htab hb
+  have h2 := BlockH.parseBlocksH_upToAll cfg.blockCfg src hsmall hpara hb
+  have h3 := BlockH.parseBlocksH_content_len cfg.blockCfg src hsmall hpara htab hb
+  have h23 := allInl_and (Q3 := fun c m => C05I.UpToAll c m (Lines.byteLen src) ∧
+      2 * InlineOps.byteLen c + cfg.maxNesting < 2 ^ 31 - 1)
+    (fun c _ hu hl => ⟨hu, by
+      rw [C05I.linesLen_eq c] at hl
+      show 2 * InlineOps.byteLen c + cfg.maxNesting < 2147483647
+      omega⟩) h2 h3
+  exact allInl_and (fun _ _ a b => ⟨a, b⟩) h1 h23
+
+/-- **`docH_html_inline_ranges` (flat chains, unconditional).**  Paragraph rule, html rules anywhere, an inline
+    chain without the link and the image rule, emphasis markers single bytes, `max_nesting ≤ 2^30`: in the tree
+    `parseDocH` returns for a tab-free source with `4 * |src| + 8 < 2^31`, every `HtmlInline` node — at any depth —
+    has a range `(x, y)` with `x ≤ y ≤ |src|`. -/
+theorem docH_html_inline_ranges (cfg : DocCfgH) (src : List Char) (t : Node)
+    (hfl : InlineH.RuleIdH.base .link ∉ cfg.inlineChain ∧ InlineH.RuleIdH.base .image ∉ cfg.inlineChain)
+    (hsz : ∀ mk csw, InlineH.RuleIdH.base (.emph mk csw) ∈ cfg.inlineChain → mk.utf8Size = 1)
+    (hpara : BlockH.hasParaH cfg.blockChain = true) (hmn : cfg.maxNesting ≤ 1073741824)
+    (hsmall : 4 * Lines.byteLen src + 8 < 2147483648) (htab : '\t' ∉ src)
+    (h : parseDocH cfg src = .ok t) : Every (HtmlInlineRanged (Lines.byteLen src)) t := by
+  refine docH_html_inline_ranges_of cfg src t ?_ h
+  intro root refs hb
+  have hall : Block.AllInl (fun c m => ∀ ns, InlineH.parseInlineH (cfg.inlineCfg refs) c m = .ok ns →
+        ∀ x ∈ ofInlineList ns, Every (HtmlInlineRanged (Lines.byteLen src)) x) root :=
+    (docH_placeholder_facts cfg src hpara hmn hsmall htab hb).imp
+      (fun c m ⟨hm, hu, hs⟩ ns hns =>
+        parseInlineH_hir (cfg.inlineCfg refs) _ hsz hm hu hs
+          (InlineH.memoSafeH_flat (cfg.inlineCfg refs) hfl hsz hm hs) ns hns)
+  exact (placeholders_of_allInl _ (sizeOf root)).1 root (Nat.le_refl _) hall (BlockH.parseBlocksH_inlNoRange hb)
+
+/-- **`docH_html_inline_ranges_memoSafe` (any chain, under the executable memo check).**  The same for EVERY
+    inline chain (link, image, html, …) on every document that passes `docMemoSafeH`. -/
+theorem docH_html_inline_ranges_memoSafe (cfg : DocCfgH) (src : List Char) (t : Node)
+    (hsz : ∀ mk csw, InlineH.RuleIdH.base (.emph mk csw) ∈ cfg.inlineChain → mk.utf8Size = 1)
+    (hpara : BlockH.hasParaH cfg.blockChain = true) (hmn : cfg.maxNesting ≤ 1073741824)
+    (hsmall : 4 * Lines.byteLen src + 8 < 2147483648) (htab : '\t' ∉ src)
+    (hsafe : docMemoSafeH cfg src = true)
+    (h : parseDocH cfg src = .ok t) : Every (HtmlInlineRanged (Lines.byteLen src)) t := by
+  refine docH_html_inline_ranges_of cfg src t ?_ h
+  intro root refs hb
+  unfold docMemoSafeH at hsafe
+  rw [hb] at hsafe
+  have hms := placeholdersB_sound root hsafe
+  have hfacts := (placeholders_of_allInl _ (sizeOf root)).1 root (Nat.le_refl _)
+    (docH_placeholder_facts cfg src hpara hmn hsmall htab hb) (BlockH.parseBlocksH_inlNoRange hb)
+  -- combine the two placeholder claims
+  have hand : ∀ n : Nat,
+      (∀ b : Block.BNode, sizeOf b ≤ n → ∀ {P Q R : List Char → List (Nat × Nat) → Prop},
+        (∀ c m, P c m → Q c m → R c m) → Placeholders P b → Placeholders Q b → Placeholders R b) ∧
+      (∀ l : List Block.BNode, sizeOf l ≤ n → ∀ {P Q R : List Char → List (Nat × Nat) → Prop},
+        (∀ c m, P c m → Q c m → R c m) → PlaceholdersList P l → PlaceholdersList Q l → PlaceholdersList R l) := by
+    intro n
+    induction n with
+    | zero =>
+      constructor
+      · intro b hb; cases b; simp at hb
+      · intro l hl
+        cases l with
+        | nil => intro _ _ _ _ _ _; simp [PlaceholdersList]
+        | cons c cs => simp at hl
+    | succ n ih =>
+      constructor
+      · intro b hb P Q R hpqr hP hQ
+        match b, hb, hP, hQ with
+        | ⟨k, r, cs⟩, hb, hP, hQ =>
+          simp only [Placeholders] at hP hQ ⊢
+          refine ⟨?_, ih.2 cs (by simp at hb; omega) hpqr hP.2 hQ.2⟩
+          cases k <;> first | trivial | exact hpqr _ _ hP.1 hQ.1
+      · intro l hl P Q R hpqr hP hQ
+        cases l with
+        | nil => simp [PlaceholdersList]
+        | cons c cs =>
+          simp only [PlaceholdersList] at hP hQ ⊢
+          simp at hl
+          exact ⟨ih.1 c (by omega) hpqr hP.1 hQ.1, ih.2 cs (by omega) hpqr hP.2 hQ.2⟩
+  exact (hand (sizeOf root)).1 root (Nat.le_refl _)
+    (fun c m ⟨hm, hu, hs⟩ hsafe' ns hns =>
+      parseInlineH_hir (cfg.inlineCfg refs) _ hsz hm hu hs hsafe' ns hns) hfacts hms
+
+-- non-vacuity: the two tags of the example document, flat configuration: ranges `[2,5]`, `[6,10]` of 43 bytes
+example : (match parseDocH (exFlatH false 100) exDoc with
+    | .ok t => (dnodes t).filterMap (fun n => if Kind.isHtmlInline n.kind then some n.range else none)
+    | .error _ => []) = [some (2, 5), some (6, 10)] := by decide +kernel
 
 end MdIt.PipelineH
